@@ -107,6 +107,23 @@ def run_check(pid, prop, tier, seed):
         for d in disagreements:
             sweep_fail.append({"label": "differs-from-reference|" + d["label"], "case": d["case"], "impl": d["impl"], "expected": "reference (extracted Coq model): " + str(d["model"])})
     sweep_fail += hfails
+    # ---- 4b. a sample of the cases re-evaluated inside Coq (vm_compute on the Gallina definitions, no extraction)
+    ce = getattr(prop, "coq_eval_terms", None)
+    if ce:
+        picks = ce(S)      # [(case index, Gallina term)]
+        if picks:
+            vals, clog = C.coq_eval(pid, [t for _, t in picks])
+            n_ok = 0
+            if vals is None:
+                broken.append("in-Coq re-evaluation failed to compile: " + clog[-300:])
+            else:
+                for (i, term), v in zip(picks, vals):
+                    want = C.show_model_result(model[i].core()) if model[i] else None
+                    got = (v or "").replace("%Z", "").replace("%N", "")
+                    if want is None or got != want:
+                        broken.append("extracted model and in-Coq evaluation differ on case %r: Coq %s, OCaml %s" % (S.cases[i][0][:120], (got or "")[:120], (want or "")[:120]))
+                    else: n_ok += 1
+            cov["in_coq_reevaluations"] = {"cases": len(picks), "agree": n_ok}
     cov["evaluations"] = len(S.cases)
     cov["distinct_nontrivial"] = len(nontrivial)
     cov["rule"] = prop.RULE
